@@ -11,7 +11,7 @@ import (
 func init() {
 	Register(&Rule{
 		Name:  "R-FRESH-FILE",
-		Props: []string{"C06", "C04"},
+		Props: []string{"C06", "C04", "C05"},
 		Min:   3,
 		Doc: "every receive-side load of a sidecar (LoadOrCreateSidecar*) is dominated by a stat of the data file (a non-sidecar path) that happens before the data file is created or resized, " +
 			"and the stat result reaches a branch that removes the sidecar before the load: without observing the data file no implementation can tell 'sidecar present, file gone/shorter' from a valid partial state",
@@ -132,7 +132,6 @@ func runFreshFile(c *Ctx) {
 			key := fmt.Sprintf("fresh/%s#%d", f.Name, n)
 			// form 2: the observation was made where the file was created and travels in a struct field
 			if len(statFields) > 0 {
-				primary := types.ExprString(call.Args[0])
 				viaField := false
 				ast.Inspect(f.Body, func(nd ast.Node) bool {
 					is, ok := nd.(*ast.IfStmt)
@@ -153,7 +152,7 @@ func runFreshFile(c *Ctx) {
 					}
 					ast.Inspect(is.Body, func(m ast.Node) bool {
 						if rc, ok := m.(*ast.CallExpr); ok && calleeIs(info, rc, "os", "Remove") && len(rc.Args) == 1 &&
-							types.ExprString(rc.Args[0]) == primary && rc.Pos() < call.Pos() {
+							samePathExpr(f, rc.Args[0], call.Args[0]) && rc.Pos() < call.Pos() {
 							viaField = true
 						}
 						return true
@@ -204,9 +203,11 @@ func runFreshFile(c *Ctx) {
 			}
 			// the stat must precede creation/resizing of the same file in this function
 			okOrder := true
+			var createRefs []NodeRef
 			cfg.Calls(func(or NodeRef, oc *ast.CallExpr) {
 				if calleeIs(info, oc, "os", "OpenFile") && len(oc.Args) == 3 && strings.Contains(types.ExprString(oc.Args[1]), "O_CREATE") &&
 					types.ExprString(oc.Args[0]) == types.ExprString(statPath) {
+					createRefs = append(createRefs, or)
 					if statRef.B != nil && f.CFG() == cfg && statRef.B.Live && !cfg.Dominates(statRef, or) {
 						okOrder = false
 					}
@@ -265,6 +266,7 @@ func runFreshFile(c *Ctx) {
 				})
 			}
 			removed := false
+			var removeRefs []NodeRef
 			primary := types.ExprString(call.Args[0])
 			ast.Inspect(f.Body, func(nd ast.Node) bool {
 				is, ok := nd.(*ast.IfStmt)
@@ -273,8 +275,9 @@ func runFreshFile(c *Ctx) {
 				}
 				ast.Inspect(is.Body, func(m ast.Node) bool {
 					if rc, ok := m.(*ast.CallExpr); ok && calleeIs(info, rc, "os", "Remove") && len(rc.Args) == 1 &&
-						types.ExprString(rc.Args[0]) == primary && rc.Pos() < call.Pos() {
+						samePathExpr(f, rc.Args[0], call.Args[0]) && rc.Pos() < call.Pos() {
 						removed = true
+						removeRefs = append(removeRefs, cfg.Find(rc.Pos()))
 					}
 					return true
 				})
@@ -285,6 +288,8 @@ func runFreshFile(c *Ctx) {
 				c.Bad(key, call.Pos(), "the data file is created/resized before it is observed: the stat can no longer tell a missing or shorter file from a valid partial one")
 			case !removed:
 				c.Bad(key, call.Pos(), "the data file is observed but the result never leads to discarding the sidecar ("+primary+") before it is loaded")
+			case removeAfterCreate(cfg, createRefs, removeRefs):
+				c.Bad(key, call.Pos(), "the stale sidecar ("+primary+") is removed only after the data file was created/resized to its full size: a kill between the two leaves a full-size file of zeros next to metadata that marks its chunks complete, and the next run cannot tell it from an intact file (F19)")
 			default:
 				c.OK(key, call.Pos(), "sidecar load dominated by a stat of the data file whose result can remove the sidecar first")
 			}
@@ -613,4 +618,29 @@ func statDependentFields(p *Program, k *KindEnv) map[*types.Var]bool {
 		})
 	}
 	return out
+}
+
+// samePathExpr: two path expressions are the same after expanding single-definition locals.
+func samePathExpr(f *FuncInfo, a, b ast.Expr) bool {
+	as, bs := resolveExprs(f, a, 2), resolveExprs(f, b, 2)
+	for _, x := range as {
+		for _, y := range bs {
+			if types.ExprString(x) == types.ExprString(y) {
+				return true
+			}
+		}
+	}
+	return false
+}
+
+// removeAfterCreate: some removal of the stale sidecar can run after the data file was created.
+func removeAfterCreate(cfg *CFG, creates, removes []NodeRef) bool {
+	for _, cr := range creates {
+		for _, rm := range removes {
+			if rm.Valid() && cr.Valid() && cfg.Reaches(cr, rm) {
+				return true
+			}
+		}
+	}
+	return false
 }
